@@ -461,6 +461,52 @@ func C10(r *h.Run) {
 			}
 		}
 	}
+	// a retry interceptor: it calls next twice for one CallUnary — first under a short deadline of
+	// its own, then (the first attempt having failed) on the caller's context, which has no
+	// deadline or one too far away to express: the second attempt announces what ITS context says
+	for _, proto := range []string{"connect", "grpc", "grpcweb"} {
+		for _, second := range []string{"no deadline", "a deadline 146 years away"} {
+			hname := "Connect-Timeout-Ms"
+			var opts []connect.ClientOption
+			if proto == "grpc" {
+				opts, hname = append(opts, connect.WithGRPC()), "Grpc-Timeout"
+			} else if proto == "grpcweb" {
+				opts, hname = append(opts, connect.WithGRPCWeb()), "Grpc-Timeout"
+			}
+			var seen [][]string
+			doer := roundTripFunc(func(req *http.Request) (*http.Response, error) {
+				seen = append(seen, append([]string(nil), req.Header.Values(hname)...))
+				return nil, fmt.Errorf("verif: stop here")
+			})
+			retry := connect.UnaryInterceptorFunc(func(next connect.UnaryFunc) connect.UnaryFunc {
+				return func(ctx context.Context, req connect.AnyRequest) (connect.AnyResponse, error) {
+					short, cancel := context.WithTimeout(ctx, 150*time.Millisecond)
+					_, _ = next(short, req)
+					cancel()
+					return next(ctx, req)
+				}
+			})
+			client := connect.NewClient[wrapperspb.BytesValue, wrapperspb.BytesValue](doer, "http://verif.invalid/verif.Svc/Do", append(opts, connect.WithInterceptors(retry))...)
+			ctx := context.Background()
+			if second != "no deadline" {
+				var cancel context.CancelFunc
+				ctx, cancel = context.WithDeadline(ctx, time.Now().Add(1<<62))
+				defer cancel()
+			}
+			_, _ = client.CallUnary(ctx, connect.NewRequest(&wrapperspb.BytesValue{}))
+			in := map[string]any{"proto": proto, "interceptor": "calls next under a 150 ms deadline, then again on the caller's context", "caller's context": second}
+			r.Eval("client_retry_interceptor", fmt.Sprint(proto, second))
+			r.Sample("client_retry_interceptor", map[string]any{"in": in, "timeout_headers_per_attempt": seen})
+			expressible := second != "no deadline" && hname == "Grpc-Timeout" // (gRPC can say 146 years: in hours)
+			if len(seen) != 2 || len(seen[0]) != 1 {
+				r.Fail(h.Failure{Key: proto + "-client/timeout-header-count", Family: "client_retry_interceptor", What: "the first attempt does not carry exactly one timeout value", Input: in, Actual: seen})
+			} else if !expressible && len(seen[1]) != 0 {
+				r.Fail(h.Failure{Key: proto + "-client/timeout-without-deadline", Family: "client_retry_interceptor", What: "the second attempt announces a timeout its context does not have (the first attempt's)", Input: in, Actual: seen})
+			} else if expressible && (len(seen[1]) != 1 || seen[1][0] == seen[0][0]) {
+				r.Fail(h.Failure{Key: proto + "-client/extended", Family: "client_retry_interceptor", What: "the second attempt does not announce the time remaining on ITS context", Input: in, Actual: seen})
+			}
+		}
+	}
 	clientCase := func(proto string, d time.Duration) {
 		var cap capture
 		var deadline time.Time
